@@ -304,10 +304,19 @@ func (e *Engine) execInstr(st *State, fr *frame, instr ssa.Instruction) {
 	case *ssa.DebugRef:
 	case *ssa.Alloc:
 		et := ins.Type().(*types.Pointer).Elem()
-		if ins.Heap {
+		_, isArr := et.Underlying().(*types.Array)
+		if ins.Heap || isArr {
 			ref := st.alloc()
 			p := PtrV{Ref: ref, RootT: et, Elem: et}
-			e.storeAt(st, e.rootKey(et), ref, nil, et, e.zeroValue(et))
+			if at, ok := et.Underlying().(*types.Array); ok {
+				for _, ks := range e.leafKeys(e.rootKey(et)+"[]", at.Elem(), 1) {
+					a := st.heapArr(ks.Key, ks.Sort)
+					e.noteHeapKey(ks.Key, ks.Sort)
+					st.setHeapArr(ks.Key, Store(a, ref, ZeroOf(ks.Sort.Val)))
+				}
+			} else {
+				e.storeAt(st, e.rootKey(et), ref, nil, et, e.zeroValue(et))
+			}
 			st.env[ins] = p
 		} else {
 			e.cellN++
@@ -729,8 +738,18 @@ func (e *Engine) sliceOp(st *State, ins *ssa.Slice) Value {
 		if !ok {
 			panic(unsupported("slice of pointer to non-array"))
 		}
-		_ = at
-		panic(unsupported("slice of array pointer"))
+		if x.Cell > 0 || x.Global != nil || len(x.Path) > 0 {
+			panic(unsupported("slice of a non-root array pointer"))
+		}
+		e.checkNil(st, x, ins.Pos())
+		n := IntLit(at.Len())
+		if hasHi {
+			hi = e.term(st, ins.High)
+		} else {
+			hi = n
+		}
+		e.oblige(st, "safe", "slice_bounds", And(Le(IntLit(0), lo), Le(lo, hi), Le(hi, n)), ins.Pos())
+		return SliceV{Arr: x.Ref, Off: lo, Len: Sub(hi, lo), Cap: Sub(n, lo), Elem: at.Elem()}
 	}
 	panic(unsupported("Slice"))
 }
